@@ -422,7 +422,10 @@ def run_batch(items, workdir=None, timeout=600):
                 elif reason_matches(reason, msgs):
                     res["rejected"] += 1
                 else:
-                    violations.append("%s: model says `%s`, the macro panicked with %s" % (show(i), model[i][:200], json.dumps(details["rejected"][i])[:400]))
+                    # the property only says that such a string does not compile; the wording of the
+                    # macro's panic is not part of it (a reworded message must not raise an alarm)
+                    res["rejected"] += 1
+                    details.setdefault("message_differs", []).append(i)
             if not errs and not success:
                 violations.append("the crate of rejected invocations failed without located errors: %s %s" % ("; ".join(other)[:500], tail[-500:].replace("\n", " | ")))
     res["skipped"] = len(details["skipped"]) + len(details["skipped_lexical"])
